@@ -1,3 +1,57 @@
-import ApiFu.C12.Model
+/-
+  C12 — property theorems.
+
+  (1) Parser: the depth limit is about depth only — over the C06 parser model (fixed code).
+  (2) Cost walk: the step model of `ValidateCost`'s walk as written is exponential on a family of
+      linearly growing documents (the machine-checked statement of finding F-12c).
+-/
+import ApiFu.C12.Lemmas
+import ApiFu.C06.Props
+
 namespace ApiFu.C12
+open ApiFu.C06
+
+/-- **rec_balanced** (C06.rec_balanced, restated for this property) — every production of the parser
+    returns with `p.recursion` at its entry value on every return path: the counter that
+    "maximum recursion depth exceeded" tests is the height of the production call stack, it does not
+    accumulate over siblings. True of the code after the F-12a fix only (`C06.rec_leaks_before_fix`). -/
+theorem rec_balanced (f : Nat) :
+    Balanced (parseSelection f) ∧ Balanced (parseField f) ∧ Balanced (parseSelectionSet f) ∧
+    (∀ c, Balanced (parseValue f c)) ∧ Balanced (parseType f) ∧ Balanced (parseOptionalArguments f) ∧
+    Balanced (parseOptionalDirectives f) ∧ Balanced (parseOptionalVariableDefinitions f) ∧
+    Balanced (parseDefinition f) ∧ Balanced (parseDocument f) := by
+  have h := C06.rec_balanced f
+  exact ⟨h.2.2.2.2.2.2.2.2.2.2.2.2.2.1, h.2.2.2.2.2.2.2.2.2.2.2.2.2.2.1, h.2.2.2.2.2.2.2.2.2.2.2.2.1,
+    h.2.2.2.2.2.2.1, h.2.2.2.2.2.1, h.2.2.2.2.2.2.2.2.1, h.2.2.2.2.2.2.2.2.2.1, h.2.2.2.2.2.2.2.2.2.2.2.1,
+    h.2.2.2.2.2.2.2.2.2.2.2.2.2.2.2.2.2.2.1, h.2.2.2.2.2.2.2.2.2.2.2.2.2.2.2.2.2.2.2⟩
+
+/-- **cost_walk_steps_chain** — on the document
+    `{ ...F0 } fragment F0 on Query { ...F1 ...F1 } … fragment F(n-1) on Query { ...Fn ...Fn } fragment Fn on Query { x }`
+    the cost walk (as written: a fragment definition is expanded at every spread that reaches it)
+    visits exactly `3·2ⁿ − 1` fields and spreads, without reporting an error, for every sufficient fuel. -/
+theorem cost_walk_steps_chain (n fuel : Nat) (hfuel : 4 * n + 7 ≤ fuel) :
+    costVisits fuel (chainDoc fname n) = some { visits := 3 * 2 ^ n - 1, err := false } := by
+  rw [costVisits_chainDoc fname fname_inj n fuel hfuel]
+  have := T_eq n
+  congr 2
+  omega
+
+/-- **cost_walk_lower** — F-12c, machine-checked: there is a family of well-formed documents `dₙ` of
+    linear size (`10·n + 11` tokens) on which the cost walk visits at least `2ⁿ` nodes. The work of
+    `ValidateCost` is therefore not bounded by any polynomial in the length of the document.
+    (The harness checks on every run that the `verif` hook counter of the real walk equals this
+    model's count on `dₙ` for the sizes it can afford, and on random fragment graphs.) -/
+theorem cost_walk_lower (n : Nat) :
+    ∃ d : Document, wfDocument d = true ∧ d.stoks.length = 10 * n + 11 ∧
+      ∀ fuel, 4 * n + 7 ≤ fuel → ∃ w, costVisits fuel d = some w ∧ w.err = false ∧ 2 ^ n ≤ w.visits := by
+  refine ⟨chainDoc fname n, wf_chainDoc fname fname_ne_on n, chainDoc_size fname n, ?_⟩
+  intro fuel hfuel
+  refine ⟨_, cost_walk_steps_chain n fuel hfuel, rfl, ?_⟩
+  have : 0 < 2 ^ n := Nat.two_pow_pos n
+  simp only
+  omega
+
+/-- Non-vacuity / sample: `n = 3` — 41 tokens, 23 visits. -/
+example : costVisits 100 (chainDoc fname 3) = some { visits := 23, err := false } := by decide +kernel
+
 end ApiFu.C12
